@@ -453,3 +453,40 @@ func (c *Ctx) seenBeforeLifted(site ssa.Instruction, depth int, labels ...string
 	}
 	return true
 }
+
+// obAccompanied: on every path through f that executes the trigger, one of the labels is produced as well —
+// either before the trigger on all paths reaching it, or on every path from it to the function exit. The order
+// of the two is left open (a reply and the state change it reports may be swapped without changing behaviour).
+func (c *Ctx) obAccompanied(what string, f *ssa.Function, trig func(ssa.Instruction) bool, labels []string, explain string) int {
+	_, s := c.Std()
+	n := 0
+	allInstrs(f, func(t ssa.Instruction) {
+		if !trig(t) {
+			return
+		}
+		n++
+		seen := s.SeenBefore(t)
+		ok := hasAny(seen, labels...)
+		where := ""
+		if !ok && !c.mustDo(labels...)(t) {
+			v := RunPend(f, PendRule{
+				Trig:   func(in ssa.Instruction) bool { return in == t },
+				Disch:  c.mustDo(labels...),
+				DeferD: c.deferMustDo(labels...),
+				AtExit: true,
+			})
+			ok = len(v) == 0
+			if !ok {
+				where = c.P.InstrPos(v[0].At)
+			}
+		} else {
+			ok = true
+		}
+		d := ""
+		if !ok {
+			d = fmt.Sprintf("%s: none of %v happens before %s on every path, and the path to the return at %s does not pass one either", explain, labels, c.P.InstrPos(t), where)
+		}
+		c.R.Ob(c.siteKey(t, what), c.P.InstrPos(t), ok, d)
+	})
+	return n
+}
